@@ -229,6 +229,7 @@ var profC17 = profile{
 	tweak: func(t *rapid.T, c *harness.Config) { c.LockAfter = rapid.IntRange(3, 6).Draw(t, "lockafter17") },
 	// error paths log and render too: secrets must stay out of storage, logs and mail whichever backend call fails
 	faultPct: 10, faultKinds: []string{"generic", "generic", "notfound"},
+	jsonMangle: 6, // decode errors are logged too
 }
 
 func TestC17(t *testing.T) {
